@@ -91,6 +91,10 @@ pub enum UserKind {
     DeadBands(u8),
     /// read_file of a file of `blocks` blocks of `block_size` octets; the FileReader aborts in opened (0) or at block n-1
     FileRead { blocks: u8, block_size: u8, abort_at: Option<u8> },
+    /// read_directory of a directory with this many entries
+    Directory(u8),
+    /// get_file_info
+    FileInfo,
 }
 
 #[derive(Clone, Debug, Serialize, Deserialize, PartialEq)]
@@ -202,6 +206,8 @@ pub struct OutstationSim {
     /// open file: (handle, blocks, block size)
     pub file: Option<(u32, u32, u32)>,
     pub file_handle: u32,
+    /// contents when the open "file" is a directory listing
+    pub file_bytes: Option<Vec<u8>>,
     /// the time written by the master (WRITE g50v1 / g50v3), with virtual time of arrival
     pub time_written: Vec<(u64, u64, u8)>,
     pub recorded_time_at: Option<u64>,
@@ -229,6 +235,7 @@ impl OutstationSim {
             answer_link_status: true,
             file: None,
             file_handle: 0x1000,
+            file_bytes: None,
             time_written: Vec::new(),
             recorded_time_at: None,
             recorded_times: Vec::new(),
@@ -611,7 +618,21 @@ fn on_fragment(p: &mut PeerShared, src: u16, dest: u16, bytes: &[u8], worder: u6
             let bsize: u32 = it.next().and_then(|x| x.parse().ok()).unwrap_or(1);
             let o = &mut p.outstations[oi];
             o.file_handle += 1;
-            o.file = Some((o.file_handle, blocks.max(1), bsize.max(1)));
+            o.file_bytes = None;
+            let (blocks, bsize) = if name.starts_with('d') {
+                // a directory: its contents are g70v7 records, served as one block
+                let n: u32 = name[1..].parse().unwrap_or(0);
+                let mut listing = Vec::new();
+                for k in 0..n {
+                    listing.extend(file_descriptor(&format!("entry{}", k), 100 + k, 0));
+                }
+                let len = listing.len() as u32;
+                o.file_bytes = Some(listing);
+                (1, len)
+            } else {
+                (blocks, bsize)
+            };
+            o.file = Some((o.file_handle, blocks.max(1), bsize));
             let mut body = Vec::new();
             body.extend_from_slice(&o.file_handle.to_le_bytes());
             body.extend_from_slice(&(blocks * bsize).to_le_bytes());
@@ -619,6 +640,13 @@ fn on_fragment(p: &mut PeerShared, src: u16, dest: u16, bytes: &[u8], worder: u6
             body.extend_from_slice(&obj.get(24..26).map(|x| [x[0], x[1]]).unwrap_or([0, 0]));
             body.push(0);
             fragments.push(response_bytes(Ctrl::request(seq), refapp::FUNC_RESPONSE, iin, &free_format(70, 4, &body)));
+        }
+        28 => {
+            // GET_FILE_INFO with g70v7: answered with the descriptor of that name
+            let obj = bytes.get(8..).unwrap_or(&[]);
+            let name = obj.get(20..).map(|n| String::from_utf8_lossy(n).to_string()).unwrap_or_default();
+            let rid = obj.get(18..20).map(|x| u16::from_le_bytes([x[0], x[1]])).unwrap_or(0);
+            fragments.push(response_bytes(Ctrl::request(seq), refapp::FUNC_RESPONSE, iin, &free_format(70, 7, &file_descriptor(&name, 4321, rid))));
         }
         26 => {
             // CLOSE_FILE with g70v4
@@ -646,8 +674,13 @@ fn on_fragment(p: &mut PeerShared, src: u16, dest: u16, bytes: &[u8], worder: u6
             body.extend_from_slice(&handle.to_le_bytes());
             let last = block + 1 >= blocks;
             body.extend_from_slice(&(block | if last { 0x8000_0000 } else { 0 }).to_le_bytes());
-            for i in 0..bsize as usize {
-                body.push(crate::verif::nodes::master::file_octet(block, i));
+            match &p.outstations[oi].file_bytes {
+                Some(bytes) => body.extend_from_slice(bytes),
+                None => {
+                    for i in 0..bsize as usize {
+                        body.push(crate::verif::nodes::master::file_octet(block, i));
+                    }
+                }
             }
             fragments.push(response_bytes(Ctrl::request(seq), refapp::FUNC_RESPONSE, iin, &free_format(70, 5, &body)));
         }
@@ -856,6 +889,20 @@ fn on_fragment(p: &mut PeerShared, src: u16, dest: u16, bytes: &[u8], worder: u6
             p.cut_requested = Some(CloseKind::Reset);
         }
     }
+}
+
+/// body of a g70v7 file descriptor
+fn file_descriptor(name: &str, size: u32, request_id: u16) -> Vec<u8> {
+    let mut v = Vec::new();
+    v.extend_from_slice(&20u16.to_le_bytes());
+    v.extend_from_slice(&(name.len() as u16).to_le_bytes());
+    v.extend_from_slice(&1u16.to_le_bytes());
+    v.extend_from_slice(&size.to_le_bytes());
+    v.extend_from_slice(&[0, 0, 0, 0, 0, 0]);
+    v.extend_from_slice(&0x1FFu16.to_le_bytes());
+    v.extend_from_slice(&request_id.to_le_bytes());
+    v.extend_from_slice(name.as_bytes());
+    v
 }
 
 /// one free-format object header (qualifier 0x5B, count 1, 16-bit size)
@@ -1112,6 +1159,17 @@ pub fn spawn_user(sim: &Sim, node: &MasterNode, id: u64, assoc: &AssociationHand
                     Err(e) => (false, format!("{:?}", e)),
                 }
             }
+            UserKind::Directory(n) => {
+                let config = crate::master::DirReadConfig { max_block_size: 1024, max_file_size: 10_000 };
+                match h.read_directory(format!("d{}", n), config, None).await {
+                    Ok(items) => (true, format!("Ok({} entries: {:?})", items.len(), items.iter().map(|i| (i.name.clone(), i.size)).collect::<Vec<_>>())),
+                    Err(e) => (false, format!("{:?}", e)),
+                }
+            }
+            UserKind::FileInfo => match h.get_file_info("info.txt").await {
+                Ok(i) => (true, format!("Ok({} {})", i.name, i.size)),
+                Err(e) => (false, format!("{:?}", e)),
+            },
             UserKind::DeadBands(n) => {
                 let items: Vec<(u8, u16)> = (0..n.max(1)).map(|i| (i, 100 + i as u16)).collect();
                 match h.write_dead_bands(vec![crate::master::DeadBandHeader::group34_var1_u8(items)]).await {
